@@ -33,6 +33,8 @@ func checkC10(c *Ctx, r *Report) {
 	algorithmHashTable(c, r, "C10.R5.alg-hash-table")
 	r.rule("C10.R3.canonical-fold", 1, "CanonicalName (owner, signer and RDATA names in the signed data) lower-cases exactly A-Z")
 	foldRangeRule(c, r, "C10.R3.canonical-fold", "CanonicalName", "names containing the letter left out are signed in the case they were written in: signatures depend on letter case")
+	r.rule("C10.R2.int-to-bytes", 1, "ECDSA r and s are left-padded to exactly the curve width")
+	intToBytesRule(c, r, "C10.R2.int-to-bytes")
 	r.rule("C10.R1.name-eq", 1, "the owner / signer name pre-checks compare through equal(), which folds exactly A-Z on both sides")
 	foldRule(c, r, "C10.R1.name-eq")
 	r.rule("C10.R3.copy-faithful", 81, "the copy rawSignatureData canonicalises carries field i of the record in field i")
